@@ -310,7 +310,7 @@ def execute(case):
         if isinstance(by, str) and by == "offset" and "__pos" not in self.columns and not k.get("inplace"):
             tmp = self.assign(__pos=np.arange(len(self)))
             res = orig(tmp, by, *a, **k)
-            rec.append([int(x) for x in res["__pos"]])
+            rec.append(("tgt" if "column" in self.columns else "src", [int(x) for x in res["__pos"]]))
             return res.drop(columns="__pos")
         return orig(self, by, *a, **k)
     pd.DataFrame.sort_values = wrapped
@@ -324,7 +324,10 @@ def execute(case):
     smp = []
     for _, r in res.samples.df.iterrows():
         smp.append({"t": _t8(r["offset"]), "f": str(r["sample_file"]), "v": _int(r["volume"])})
-    orders = [[rec[0], rec[1]]] if len(rec) == 2 else []
+    # the source frame has lost its "column" column by the time it is sorted; the target frame has it
+    r_src = [p for k, p in rec if k == "src"]
+    r_tgt = [p for k, p in rec if k == "tgt"]
+    orders = [[r_src[0] if len(r_src) == 1 else None, r_tgt[0] if len(r_tgt) == 1 else None]] if rec else []
     return {"v": {"hits": hits, "holds": holds, "samples": smp}, "orders": orders,
             "src_same": _same(src, b_src), "tgt_same": _same(tgt, b_tgt),
             "aliased": res is tgt or res.hits is tgt.hits or res.holds is tgt.holds}
@@ -374,7 +377,9 @@ def _chart_term(tbl, ch, out_side=False):
 
 def emit(case, out):
     tbl = _names(case, out)
-    orders = F.lst([f"({F.lst([str(i) for i in a])}%nat, {F.lst([str(i) for i in b])}%nat)" for a, b in out["orders"]])
+    def po(p):
+        return "None" if p is None else f"(Some {F.lst([str(i) for i in p])}%nat)"
+    orders = F.lst([f"({po(a)}, {po(b)})" for a, b in out["orders"]])
     return (f"C18 {_chart_term(tbl, case['src'])} {_chart_term(tbl, case['tgt'])} {orders} "
             f"{_chart_term(tbl, out['v'], True)} {F.boolean(out['src_same'])} {F.boolean(out['tgt_same'] and not out['aliased'])}")
 
@@ -576,7 +581,7 @@ def describe(case, out):
             f"failing parts={[k for k, v in comp.items() if not v]}")
 
 
-def shrink(case):
+def _cands(case):
     for side in ("src", "tgt"):
         for lst in ("hits", "holds", "samples"):
             for i in range(len(case[side][lst])):
@@ -591,3 +596,22 @@ def shrink(case):
                         c = copy.deepcopy(case)
                         c[side][lst][i][fld] = 0
                         yield c
+
+
+def shrink(case):
+    """Candidates one step smaller.  When the case is a violation that is NOT one of the known defect classes, only
+    candidates that still are such a violation are offered (so that shrinking cannot drift into a known finding)."""
+    try:
+        out = execute(case)
+        unknown = py_oracle(case, out) is False and classify(case, out, "spec") is None
+    except Exception:
+        unknown = False
+    for c in _cands(case):
+        if unknown:
+            try:
+                o = execute(c)
+                if not (py_oracle(c, o) is False and classify(c, o, "spec") is None):
+                    continue
+            except Exception:
+                continue
+        yield c
